@@ -291,6 +291,11 @@ def run_once(spec):
             est = getattr(dr, spec['cls'])(df, exposure='art', outcome='y')
             est.exposure_model('rid + L', a_est)
             est.outcome_model('rid + art + L', y_est)
+            if spec.get('prefit'):
+                # the split/fit/predict schedule is a property of every fit(), not of the first one on an object
+                est.fit(n_splits=spec['prefit'], n_partitions=1, random_state=spec['rs'] // 2)
+                rec = Recorder()
+                REC[0] = rec
             est.fit(n_splits=spec['k'], n_partitions=spec['nparts'], random_state=spec['rs'])
             vec = est.risk_difference_vector if spec['outcome'] == 'binary' else est.ace_vector
             out['estimates'] = [float(v) for v in vec]
@@ -383,6 +388,9 @@ def gen_specs(ctx):
              'learner': rng.choice(['plain', 'plain', 'plain', 'core', 'core', 'core', 'pipeline', 'pipeline', 'sl', 'sl'])}
         if s['learner'] == 'sl' and n // k < 6:      # SuperLearner's inner 2-fold CV needs a few rows per part
             s['learner'] = 'core'
+        kmin = 3 if is_double(cls) else 2
+        others = [j for j in range(kmin, 7) if j != k and n // j >= (6 if s['learner'] == 'sl' else 1)]
+        s['prefit'] = rng.choice(others) if others and rng.random() < 0.3 else None
         s.update(kw)
         return s
     for k in range(2, 7):
@@ -427,6 +435,7 @@ def check_specs(ctx, specs, fails):
         ctx.count('learner:' + ('predict_proba' if spec['proba'] else 'predict'))
         ctx.count('learner-kind:' + spec.get('learner', 'plain'))
         ctx.count('index:' + spec['index'])
+        ctx.count('earlier fit on the same object: ' + ('none' if not spec.get('prefit') else ('fewer splits' if spec['prefit'] < spec['k'] else 'more splits')))
         ctx.count('incomplete_rows=%d' % spec['nmiss'])
         size = spec['n'] * 10 + spec['k']
         payload = {'spec': spec}
